@@ -71,7 +71,7 @@ def main():
         ran["confirmed"] = confirmed
         # run the check
         t = time.time()
-        env2 = dict(os.environ, VERIF_REPO=wt, VERIF_NOCONFIRM="1")
+        env2 = dict(os.environ, VERIF_REPO=wt, VERIF_NOCONFIRM="1", VERIF_EVIDENCE_DIR=wt + "_evidence")
         env2.setdefault("VERIF_JOBS", "12")
         c = sh("cd %s && ./check %s --tier %s" % (VERIF, prop, tier), env=env2)
         viol = [l for l in c.stdout.splitlines() if l.startswith("VIOLATION")]
@@ -85,6 +85,7 @@ def main():
     finally:
         sh("git -C /repo worktree remove --force %s" % wt)
         shutil.rmtree(wt, ignore_errors=True)
+        shutil.rmtree(wt + "_evidence", ignore_errors=True)
     meta["verified"] = ran
     print(json.dumps({"seed": sid, **{k: ran.get(k) for k in ("confirmed", "detected", "demo_clean_exit", "demo_mutant_exit", "baseline", "check_findings", "check_wall_s")}}, indent=1))
     if ran.get("confirmed"):
@@ -94,8 +95,6 @@ def main():
         shutil.copy(os.path.join(src, "demo.py"), dst)
         json.dump(meta, open(os.path.join(dst, "meta.json"), "w"), indent=1)
     # evidence file was rewritten by a run against a patched tree: remove it so it is never mistaken for a run on /repo
-    ev = os.path.join(VERIF, "evidence", "%s.json" % prop)
-    sh("cd %s && git checkout -- evidence/%s.json" % (VERIF, prop))
     return 0
 
 
